@@ -12,14 +12,28 @@ EXTENDS TraceBase, FiniteSets
 
 VARIABLES pos, trk     \* id -> last reported position; tracked live ids
 
-RECURSIVE Apply(_, _, _)
-Apply(f, rep, i) == IF i > Len(rep) THEN f ELSE Apply((rep[i][1] :> rep[i][2]) @@ f, rep, i + 1)
+\* fold over the callback log by halving (a recursion as deep as the log is quadratic in TLC)
+RECURSIVE ApplySpan(_, _, _, _)
+ApplySpan(f, rep, lo, hi) ==
+  IF lo > hi THEN f
+  ELSE IF lo = hi THEN (rep[lo][1] :> rep[lo][2]) @@ f
+  ELSE LET mid == (lo + hi) \div 2 IN ApplySpan(ApplySpan(f, rep, lo, mid), rep, mid + 1, hi)
+Apply(f, rep, i) == ApplySpan(f, rep, i, Len(rep))
 
 TInit == TLCSet(1, 0) /\ l = 1 /\ pos = <<>> /\ trk = {}
 
-TStep ==
-  /\ l <= N
-  /\ l' = l + 1
+\* Queues beyond 2^16 elements: the driver applies the callback log itself
+\* (lastpos[id] = most recent report, -1 once the element has left) and logs that
+\* table with the array; every element entered through Set, so all are tracked.
+BigStep(e) ==
+  /\ e.panic = ""
+  /\ \A i \in DOMAIN e.arr : e.lastpos[e.arr[i][2]] = i - 1
+  /\ (e.op \in {"pop", "remove"} => e.rok /\ e.lastpos[e.ret[2]] = 0 - 1)
+  /\ (e.target # 0 => e.ret[2] = e.target)
+  /\ e.len = Len(e.arr)
+  /\ UNCHANGED <<pos, trk>>
+
+SmallStep ==
   /\ LET e == Trace[l]
          p0 == IF e.op = "new" THEN <<>> ELSE pos
          p1 == Apply(p0, e.moves, 1)
@@ -37,6 +51,11 @@ TStep ==
          /\ (e.op # "sort" =>
                \A i \in DOMAIN e.arr :
                  e.arr[i][2] \in trk' => (e.arr[i][2] \in DOMAIN p1 /\ p1[e.arr[i][2]] = i - 1))
+
+TStep ==
+  /\ l <= N
+  /\ l' = l + 1
+  /\ (IF Trace[l].kind = "big" THEN BigStep(Trace[l]) ELSE SmallStep)
 
 TSkip ==
   /\ l <= N
